@@ -1,9 +1,17 @@
 #!/bin/sh
 # Runs the repository's own suite (guard off) and checks that the only failing test is the
-# baseline's always-failing TestEnum_String. usage: tools/suite.sh [repo-dir]
+# baseline's always-failing TestEnum_String. usage: tools/suite.sh [repo-dir] [--all-cases]
+# --all-cases repeats the run with GOEXPERIMENT=loopvar: the module says go 1.19, so table tests that
+# call t.Parallel() inside `for n, c := range cc` run every subtest with the *last* case of a random
+# map order; with per-iteration loop variables every pinned case is really exercised (a fix that
+# contradicts a pinned case otherwise shows up only as a rare flake).
 export GOFLAGS=-mod=mod GOPROXY=off GOSUMDB=off GOTOOLCHAIN=local
 cd "${1:-/repo}" || exit 2
-out=$(go test -vet=off -count=1 ./... 2>&1)
-fails=$(printf '%s\n' "$out" | grep -E '^--- FAIL|^FAIL|panic:|cannot|\[build failed\]' | grep -v -E '^--- FAIL: TestEnum_String|^FAIL$|^FAIL\s+github.com/jsightapi/jsight-schema-go-library/notations/jschema/internal/schema/constraint\s')
-if [ -n "$fails" ]; then printf '%s\n' "$out" | tail -60; echo "SUITE: unexpected failures"; exit 1; fi
+run() {
+  out=$("$@" go test -vet=off -count=1 ./... 2>&1)
+  fails=$(printf '%s\n' "$out" | grep -E '^--- FAIL|^FAIL|panic:|cannot|\[build failed\]' | grep -v -E '^--- FAIL: TestEnum_String|^FAIL$|^FAIL\s+github.com/jsightapi/jsight-schema-go-library/notations/jschema/internal/schema/constraint\s')
+  if [ -n "$fails" ]; then printf '%s\n' "$out" | tail -60; echo "SUITE: unexpected failures"; exit 1; fi
+}
+run env
+if [ "${2:-}" = "--all-cases" ]; then run env GOEXPERIMENT=loopvar; echo "SUITE: ok with per-iteration loop variables too"; fi
 echo "SUITE: ok (only baseline failure TestEnum_String)"
